@@ -1,4 +1,4 @@
-import ArrModel.Basic
+import ArrModel.C08
 /-!
 # ArrModel.C10 — the four hand-written sorts, `sort`/`argsort` dispatch, `argmax`/`argmin`, `unique`
 
@@ -8,7 +8,9 @@ Mirrors
   (the pinned `merge` copies `len1` / `len2` elements from the shorter remainders and panics whenever it is called,
   i.e. for every length >= 32; the pinned `tim_sort` panics on the empty input in `step_by(0)`),
 * `src/core/types/sort/mod.rs` (`SortKind`, `parse_kind`),
-* `src/core/operations/sort.rs` (`sort`, `argsort`), `search.rs` (`argmax`, `argmin`), `manipulate.rs` (`unique`).
+* `src/core/operations/sort.rs` (`sort`, `argsort`), `search.rs` (`argmax`, `argmin`), `manipulate.rs` (`unique`);
+  their `axis = Some(k)` forms go through `apply_along_axis` = `Arr.applyAlongAxis` (`ArrModel/AlongAxis.lean`) and, for
+  `argmax`/`argmin`, the `keepdims` wrapper `Arr.countAxis` (`ArrModel/C08.lean`).
 
 Conventions: arrays-in-place are `List α` with bounds-checked primitives that answer `Res.panic` exactly where the Rust
 slice operation would (`v[i]`, `swap`, `arr[a..=b]`, `clone_from_slice`, `step_by(0)`, `unwrap`, `Vec::remove`).
@@ -293,15 +295,6 @@ def uniqueFlat (c : Cmp α) (xs : List α) : List α := dedup c (xs.mergeSort c.
 
 /-! ## `argmax` / `argmin` (`search.rs:63-95`) -/
 
-/-- `Array::single(i).atleast(ndim)` (`atleast_1d/2d/3d` on a one-element 1-D array) -/
-def atleastSingle (ndim i : Nat) : Res (Arr Nat) :=
-  match ndim with
-  | 0 => .ok ⟨[i], [1]⟩
-  | 1 => .ok ⟨[i], [1]⟩
-  | 2 => .ok ⟨[i], [1, 1]⟩
-  | 3 => .ok ⟨[i], [1, 1, 1]⟩
-  | _ => .err .UnsupportedDimension
-
 /-- position reported by the flat form: first NaN if any, else first element equal to the last / first element of
 the quick-sorted lane (`self.sort(None, Some("quicksort"))`) -/
 def argExtremePos (c : Cmp α) (isMax : Bool) (xs : List α) : Res Nat :=
@@ -313,62 +306,41 @@ def argExtremePos (c : Cmp α) (isMax : Bool) (xs : List α) : Res Nat :=
     Res.idx sorted (if isMax then sorted.length - 1 else 0) >>= fun m =>
     Res.unwrap (xs.findIdx? (fun x => c.beq x m))
 
-/-! ## the public operations: flat (`axis = None`) forms are the lane functions; `axis = Some(k)` goes through
-`apply_along_axis`, which is a parameter `along` here (`ArrModel.Axis`, owned by the lead). -/
-
-/-- `normalize_axis` : `axis < 0` adds `ndim`; a still-negative value wraps around in `isize as usize` -/
-def normAxis (ndim : Nat) (axis : Int) : Nat :=
-  if axis < 0 then (if axis + ndim < 0 then (2 ^ 64 + (axis + ndim)).toNat else (axis + ndim).toNat) else axis.toNat
-
-/-- the type of `apply_along_axis` -/
-abbrev Along (α β : Type) := Nat → (Arr α → Res (Arr β)) → Arr α → Res (Arr β)
-
-/-- `apply_along_axis` specialised to what it does on a **rank-1** array (one lane = the whole array; result
-reshaped to `[lane result length]`; the final `rollaxis` is the identity).  Not meaningful for rank >= 2. -/
-def along1D {β : Type} : Along α β := fun axis f a =>
-  if axis ≥ a.ndim then .err .AxisOutOfBounds
-  else f a >>= fun r => .ok ⟨r.elems, [r.elems.length]⟩
+/-! ## the public operations.  The flat (`axis = None`) forms are the lane functions; `axis = Some(k)` is
+`normalize_axis` followed by `apply_along_axis(axis, |arr| arr.op(None, …))`.  `zero` is `T::zero()` (the filler the
+transposes inside `apply_along_axis` start from). -/
 
 def sortLane (c : Cmp α) (k : SortKind) (a : Arr α) : Res (Arr α) := (sortFlat c k a.elems).map Arr.flat
 def argsortLane (c : Cmp α) (k : SortKind) (a : Arr α) : Res (Arr Nat) := (argsortFlat c k a.elems).map Arr.flat
 def uniqueLane (c : Cmp α) (a : Arr α) : Res (Arr α) := .ok (Arr.flat (uniqueFlat c a.elems))
 
-def argExtremeLane (c : Cmp α) (isMax : Bool) (keepdims : Option Bool) (a : Arr α) : Res (Arr Nat) :=
+/-- `argmax(None, keepdims)` (`isMax = true`) / `argmin(None, keepdims)`: the empty array is an error value;
+`Array::single(pos)`, then `atleast(ndim)` when `keepdims == Some(true)` -/
+def argExtremeLane (c : Cmp α) (isMax : Bool) (a : Arr α) (keepdims : Option Bool) : Res (Arr Nat) :=
   if a.isEmpty then .err .ParameterError
-  else argExtremePos c isMax a.elems >>= fun i =>
-    if keepdims = some true then atleastSingle a.ndim i else .ok ⟨[i], [1]⟩
+  else argExtremePos c isMax a.elems >>= fun i => Arr.keepdimsTail a.ndim keepdims (Arr.single i)
 
-def sort (along : Along α α) (c : Cmp α) (a : Arr α) (axis : Option Int) (kind : KindArg) : Res (Arr α) :=
+def sort (c : Cmp α) (zero : α) (a : Arr α) (axis : Option Int) (kind : KindArg) : Res (Arr α) :=
   resolveKind kind >>= fun k =>
   match axis with
-  | some ax => along (normAxis a.ndim ax) (sortLane c k) a
+  | some ax => a.applyAlongAxis zero zero (normalizeAxis a.ndim ax) (sortLane c k)
   | none => sortLane c k a
 
-def argsort (along : Along α Nat) (c : Cmp α) (a : Arr α) (axis : Option Int) (kind : KindArg) : Res (Arr Nat) :=
+def argsort (c : Cmp α) (zero : α) (a : Arr α) (axis : Option Int) (kind : KindArg) : Res (Arr Nat) :=
   resolveKind kind >>= fun k =>
   match axis with
-  | some ax => along (normAxis a.ndim ax) (argsortLane c k) a
+  | some ax => a.applyAlongAxis zero (0 : Nat) (normalizeAxis a.ndim ax) (argsortLane c k)
   | none => argsortLane c k a
 
-def unique (along : Along α α) (c : Cmp α) (a : Arr α) (axis : Option Int) : Res (Arr α) :=
+def unique (c : Cmp α) (zero : α) (a : Arr α) (axis : Option Int) : Res (Arr α) :=
   match axis with
-  | some ax => along (normAxis a.ndim ax) (uniqueLane c) a
+  | some ax => a.applyAlongAxis zero zero (normalizeAxis a.ndim ax) (uniqueLane c)
   | none => uniqueLane c a
 
-/-- `Vec::remove(index)` on the shape (`remove_at`) -/
-def removeAt (s : List Nat) (i : Nat) : Res (List Nat) := if i < s.length then .ok (s.eraseIdx i) else .panic
-
-/-- `argmax` (`isMax = true`) / `argmin`: with an axis the lane results are reshaped to the shape without that axis
-unless `keepdims == Some(true)` (the argument `shape.remove_at(axis)` is evaluated before `reshape` looks at the
-receiver, so an out-of-range axis panics there) -/
-def argExtreme (along : Along α Nat) (c : Cmp α) (isMax : Bool) (a : Arr α) (axis : Option Int) (keepdims : Option Bool) :
+/-- `argmax` / `argmin` with their `axis` / `keepdims` wrapper (`search.rs:63-95` after `fix:` 3bafe0c): the lane
+results are reshaped to the shape without the axis unless `keepdims == Some(true)` -/
+def argExtreme (c : Cmp α) (zero : α) (isMax : Bool) (a : Arr α) (axis : Option Int) (keepdims : Option Bool) :
     Res (Arr Nat) :=
-  match axis with
-  | some ax =>
-    let axis := normAxis a.ndim ax
-    let result := along axis (argExtremeLane c isMax keepdims) a
-    if keepdims = some true then result
-    else removeAt a.shape axis >>= fun sh => result >>= fun r => Arr.new r.elems sh
-  | none => argExtremeLane c isMax keepdims a
+  a.countAxis zero (0 : Nat) axis keepdims (argExtremeLane c isMax)
 
 end ArrModel.Sort
